@@ -702,7 +702,7 @@ func (x *exec) signature(sig string) string {
 	case sig == emptyBoardSig:
 		return sig // every edit re-prints the whole file
 	case strings.HasPrefix(sig, "panic:"):
-		return sig + suf
+		return sig // a panic is identified by its site, whatever construct the edit touched
 	case x.prop == "C41":
 		// what matters for board scoping: does the target come from a board the addressed one starts from
 		if c.tInherited {
@@ -1308,6 +1308,11 @@ func (x *exec) remark(step int, chk checker) {
 					continue
 				}
 				e := st.els[m]
+				if strings.HasPrefix(e.id, "eo") {
+					// a child that exists only as the end of a connection written in its container's
+					// block stays that way: a label would declare it as a key
+					continue
+				}
 				if base := x.boards[bi].inherits; base >= 0 {
 					if _, ok := x.pre(base).byID[strings.ToLower(e.absID)]; ok {
 						continue
